@@ -134,7 +134,9 @@ PROFILES = {
                                         odd=["1000", "1001", "1002", "999999", "0999"])),
     # every 1-, 2- and 3-digit nameplate in use, plus explicit claims of longer ones
     "allocmax": dict(apps=["a1"], sides=["s1", "s2"], names=["1", "10", "100"], client_mbox=["m1"],
-                     steps=12, type_weights=dict(allocate=10, release=1, close=0, add=0, open=0, list=0, claim=1),
+                     # (the clock stands still: nothing expires; nobody releases what the set-up claimed)
+                     steps=16, w_advance=0, w_stop=0, w_crash=0, w_drop=1, w_malformed=0,
+                     type_weights=dict(allocate=10, release=0, close=0, add=0, open=0, list=1, claim=1),
                      final_quiesce=False, only_props=["C04.a", "C04.b", "C04.c"], plain_strings=True,
                      skip_prefill_lines=True,
                      prefill_spec=dict(class1=[9], class2=[90], class3=[900], always=["1000", "1001", "1002"])),
